@@ -1,6 +1,18 @@
 """Level text / notes per property for MANIFEST.json."""
 KERNEL = "Lean 4.33 kernel + axioms {propext, Classical.choice, Quot.sound}; constants translator; correspondence harness/driver (differential testing, not proof); "
 TEXT = {
+    "C02": {
+        "level": "PARTIAL. Kernel-checked on the composed models: (T1) for every geometry and content, a store whose entries have the torrent's hashes "
+                 "(C01's guarantee) yields, under an explicit no-collision hypothesis, exactly the content slices as output files (C03 lifted to any verified "
+                 "store); (T2) in every reachable state of the manager model - any history of any number of peers, every shuffle outcome - a piece that is "
+                 "not owned and is offered by a connected peer is never stuck: a Reserved piece has a live, unchoked peer that was really asked for it and "
+                 "whose completion lowers the number of missing pieces; a Missing piece is answered with a request when the offering peer unchokes, and "
+                 "completing that lowers the number; (T3) no event raises the number of missing pieces, which is 0 exactly when all are owned. "
+                 "Not proved: that the real tasks take these steps (fairness, sockets, timers) - observed by end-to-end runs of the real Session.",
+        "note": KERNEL + "the liveness half is a possibility-of-progress theorem about the manager model plus monotonicity, not a fairness proof of the tokio "
+                "runtime; the handler-level block exchange is covered by C10/C01/C06 separately; e2e runs: 14 per quick check, 700 in the thorough tier.",
+        "technique": "Lean 4 proof (composition of C01/C03/C12/C13 models: verified-store refinement; progress measure over reachable manager states) + end-to-end differential runs of the real session",
+    },
     "C19": {
         "level": "Part 1, kernel-checked for every reply dictionary: without failure reason, with integer interval >= 0 and a peers list, the result is "
                  "in listed order exactly the well-formed entries (UTF-8 ip, 20-byte id, port >= 0) rendered ip:port, and every kept entry is well-formed "
